@@ -40,6 +40,9 @@ pub enum TokOp {
     Lookup { l: usize, query: String },
     /// SentenceSplitter::with_checker(dict.lexicon()).split(text)  (ConcSim only; TokSim ignores it)
     Sentences { text: String },
+    /// collect_results while a list that shares the target's text holds a live borrow (`surface()` of one of its
+    /// morphemes): the call must be refused with an error and change nothing; the following Collect retries it
+    CollectHeld { t: usize, l: usize, holder: usize },
     /// the tokenizer's debug flag: dumps go to the (discarded) standard output, results must not change
     SetDebug { t: usize, on: bool },
 }
@@ -104,7 +107,7 @@ pub fn gen_ops(rng: &mut Rng, world: &WorldSpec, n_tok: usize, n_lists: usize, s
     for _ in 0..steps {
         let t = rng.below(n_tok);
         let l = rng.below(n_lists);
-        match rng.weighted(&[45, 8, 6, 10, if heavy { 3 } else { 0 }, if heavy { 2 } else { 0 }, 5, 10, 4, 5, 2, 2, if world.two_level.is_some() { 4 } else { 0 }]) {
+        match rng.weighted(&[45, 8, 6, 10, if heavy { 3 } else { 0 }, if heavy { 2 } else { 0 }, 5, 10, 4, 5, 2, 2, if world.two_level.is_some() { 4 } else { 0 }, 3, 3, 4]) {
             0 => {
                 ops.push(TokOp::Analyse { t, text: gen_text(rng, &world.keys) });
                 if rng.chance(17, 20) {
@@ -136,6 +139,36 @@ pub fn gen_ops(rng: &mut Rng, world: &WorldSpec, n_tok: usize, n_lists: usize, s
             8 => ops.push(TokOp::Clear { l }),
             9 => ops.push(TokOp::Reread { l }),
             11 => ops.push(TokOp::SetDebug { t, on: rng.chance(2, 3) }),
+            15 => {
+                // two texts that start with equally long runs (about 64 characters: words of that length are tracked
+                // inexactly) of different letters; the analysis of the first one is made to fail inside an OOV provider
+                let n = 62 + rng.below(9);
+                let t1 = format!("{}{}", "a".repeat(n), ["。", "東", " "][rng.below(3)]);
+                let t2 = format!("{}{}", "z".repeat(n), ["aaa", "b", "。"][rng.below(3)]);
+                ops.push(TokOp::Arm { t, fault: Fault::Oov { nth: rng.below(3) } });
+                ops.push(TokOp::Analyse { t, text: t1 });
+                ops.push(TokOp::Analyse { t, text: t2 });
+                ops.push(TokOp::Collect { t, l });
+            }
+            14 => {
+                // the very same text again right after an analysis of it was made to fail
+                let text = gen_text(rng, &world.keys);
+                ops.push(TokOp::Arm { t, fault: gen_fault(rng) });
+                ops.push(TokOp::Analyse { t, text: text.clone() });
+                ops.push(TokOp::Analyse { t, text });
+                ops.push(TokOp::Collect { t, l });
+            }
+            13 => {
+                // a split result keeps sharing the text of its parent; the parent is then refilled while the split
+                // result is being read
+                let o1 = (l + 1) % n_lists.max(1);
+                ops.push(TokOp::Analyse { t, text: gen_text(rng, &world.keys) });
+                ops.push(TokOp::Collect { t, l });
+                ops.push(TokOp::SplitInto { l, idx: 0, mode: modes[rng.below(2)].to_string(), out: o1 });
+                ops.push(TokOp::Analyse { t, text: gen_text(rng, &world.keys) });
+                ops.push(TokOp::CollectHeld { t, l, holder: o1 });
+                ops.push(TokOp::Collect { t, l });
+            }
             12 => {
                 // analyse a text with the two-level word, split it on demand, then split the result again
                 let w = world.two_level.clone().unwrap_or_default();
@@ -546,6 +579,53 @@ pub fn execute(case: &TokCase, stats: &mut Stats, work: &Path) -> Option<Violati
                             Some(Ok(Ok(pf))) => Some(Ok(pf)),
                         };
                         ts.ready = Some(Ready { text: text.clone(), mode, req, faulted: fired, reference: refr });
+                    }
+                }
+            }
+            TokOp::CollectHeld { t, l, holder } => {
+                let ti = *t % case.n_tok.max(1);
+                let li = *l % case.n_lists.max(1);
+                let hi = *holder % case.n_lists.max(1);
+                if hi == li || toks[ti].ready.is_none() || !lists[hi].valid || lists[hi].group != lists[li].group || lists[hi].list.len() == 0 {
+                    stats.inc("skipped.collect_held");
+                    continue;
+                }
+                let (a, b) = if li < hi {
+                    let (x, y) = lists.split_at_mut(hi);
+                    (&mut x[li], &y[0])
+                } else {
+                    let (x, y) = lists.split_at_mut(li);
+                    (&mut y[0], &x[hi])
+                };
+                let ts = &mut toks[ti];
+                let r = catch(|| {
+                    let m = b.list.get(0);
+                    let keep = m.surface();
+                    let r = a.list.collect_results(&mut ts.tok);
+                    drop(keep);
+                    r.map_err(|e| format!("{}", e))
+                });
+                match r {
+                    Err(p) => return viol("panic-in-subject", &p.site, oi, json!({"op":"collect_held","message":p.msg})),
+                    Ok(Err(_)) => {
+                        // refused: nothing may have changed, the next Collect repeats the call and is compared as usual
+                        stats.inc("reach.collect_refused_while_borrowed");
+                        history_ops += 1;
+                    }
+                    Ok(Ok(())) => {
+                        // the lists did not share their text after all: an ordinary, uncompared collect
+                        stats.inc("collect_held.not_shared");
+                        toks[ti].ready = None;
+                        let g = lists[li].group;
+                        for (j, o) in lists.iter_mut().enumerate() {
+                            if j != li && o.group == g {
+                                o.valid = false;
+                                o.shown = None;
+                            }
+                        }
+                        lists[li].valid = true;
+                        lists[li].shown = None;
+                        lists[li].source = None;
                     }
                 }
             }
